@@ -616,3 +616,12 @@ Proof.
   split; [reflexivity|]. split; [vm_compute; reflexivity|]. split; [vm_compute; reflexivity|].
   split; [vm_compute; reflexivity|]. split; [cbn; lia|]. cbn. discriminate.
 Qed.
+
+Print Assumptions exec_sound.
+Print Assumptions exec_preserves_caller_objects.
+Print Assumptions caller_objects_preserved.
+Print Assumptions arguments_preserved.
+Print Assumptions returns_fresh_sound.
+Print Assumptions deterministic.
+Print Assumptions elem_rule_unsound_refuted.
+Print Assumptions two_pass_loop_unsound_refuted.
